@@ -8,5 +8,6 @@ CONSTANTS
   Disturbs = FALSE
   DevRows = FALSE
   DevInd = FALSE
+  DevDocInd = FALSE
 INVARIANTS LengthInv StepOKModKnown
 CHECK_DEADLOCK FALSE
